@@ -1,5 +1,6 @@
 import ComposeVerif.Gen.C16Source
 import ComposeVerif.Gen.Dotenv
+import ComposeVerif.Gen.Tables
 /-!
 # C16 — the modelled functions are the source (regenerated source facts)
 
@@ -117,5 +118,22 @@ theorem dotenv_lookup_chain_is_modelled_source :
     dotenv_body_UnmarshalWithLookup =
       "{ out := make(map[string]string) err := newParser().parse(src, out, lookupFn) return out, err }" := by
   exact ⟨rfl, rfl, rfl, rfl, rfl, rfl⟩
+
+/-- round 6.  The **second call site**: cli/options.go `WithoutEnvironmentResolution` only sets `SkipResolveEnvironment`
+(the caller resolves later with `project.WithServicesEnvironmentResolved`: `loadThenResolve`); **layers written in two
+places** (override file, `extends` base + own entries): override/merge.go `mergeToSequence` appends the overriding list
+*after* the base list for `services.*.env_file` and `services.*.label_file` (so "env_file entries in order" continues
+across the two places — what the `extends-split` layout of `c16.load` / the oracle measures), and both kinds of
+reference are made absolute against the directory of the file they are written in (`relocation_env/labels`). -/
+theorem second_site_and_layouts_are_modelled_source :
+    c16_body_WithoutEnvironmentResolution =
+      "{ o.loadOptions = append(o.loadOptions, func(options *loader.Options) { options.SkipResolveEnvironment = true }) return nil }" ∧
+    c16_body_mergeToSequence =
+      "{ right := convertIntoSequence(c) left := convertIntoSequence(o) return append(right, left...), nil }" ∧
+    (["services", "*", "env_file"], "mergeToSequence") ∈ CV.Gen.mergeSpecials ∧
+    (["services", "*", "label_file"], "mergeToSequence") ∈ CV.Gen.mergeSpecials ∧
+    (["services", "*", "env_file", "*", "path"], "absPath") ∈ CV.Gen.resolvers ∧
+    (["services", "*", "label_file", "*"], "absPath") ∈ CV.Gen.resolvers := by
+  refine ⟨rfl, rfl, ?_, ?_, ?_, ?_⟩ <;> decide
 
 end CV.C16Src
